@@ -309,7 +309,10 @@ def _chunk(args):
               wrong = 0
               for j in range(8):
                 xd, xg = float(cd.numpy()[w, j]), int(cg.numpy()[w, j])
-                okj = (xd == -1.0 and xg == -1) if best < 0 else (xd >= 0 and abs(xd - best) <= 2 * tol and xg in accept)
+                # against the oracle's answer for THAT ray (the unshifted answer may itself be the isolated one: a ray lying in the plane between a
+                # height field's base box and its terrain); right for the moved ray or for the original one counts as right
+                bj, aj, _nj, _sj, tj = oracle(geom_table(mjm, dd, gids, PP[0, j].astype(np.float64), v), gids, elig)
+                okj = any((xd == -1.0 and xg == -1) if b_ < 0 else (xd >= 0 and abs(xd - b_) <= 2 * max(t_, tol) and xg in a_) for b_, a_, t_ in ((best, accept, tol), (bj, aj, tj)))
                 wrong += not okj
               if wrong < 4:
                 stats["degenerate"] += 1
@@ -317,7 +320,13 @@ def _chunk(args):
             if key:
               exp_t = sorted({int(mjm.geom_type[g]) for g in accept if g >= 0})
               kk = {"what": key, "path": path, "geomtype": exp_t[0] if exp_t else int(tname)}
-              if exp_t and exp_t[0] == 1:
+              if exp_t == [0] and path == "bvh":
+                # an infinite plane (size 0) sits in the BVH as a 2000 m square: hits farther out than that are beyond its box
+                for g0 in sorted(accept):
+                  loc = dd.geom_xmat[g0].reshape(3, 3).T @ (p + best * v - dd.geom_xpos[g0])
+                  if (mjm.geom_size[g0][0] <= 0 or mjm.geom_size[g0][1] <= 0) and max(abs(loc[0]), abs(loc[1])) > 1000.0:
+                    kk["part"] = "infinite_plane_beyond_1km"
+              if 1 in exp_t:
                 # which part of the height field the expected hit lies on: MuJoCo's hfield is the terrain surface plus a base box and side walls
                 part = "top"
                 for g0 in [g for g in sorted(accept) if int(mjm.geom_type[g]) == 1]:
@@ -325,7 +334,9 @@ def _chunk(args):
                   hs = mjm.hfield_size[mjm.geom_dataid[g0]]
                   if loc[2] <= 1e-4 or abs(loc[0]) >= hs[0] - 1e-4 or abs(loc[1]) >= hs[1] - 1e-4:
                     part = "base_or_side"
-                kk["part"] = part
+                if exp_t[0] == 1 or part == "base_or_side":  # (several geoms can tie for the nearest hit: the height field's base decides the class)
+                  kk["geomtype"] = 1
+                  kk["part"] = part
               bads.setdefault(core.jhash(kk), (kk, f"world {w} query {qi} {q} ray[{kind}] pnt {p.tolist()} vec {v.tolist()}: {msg}"))
         if machinery:
           break
